@@ -237,7 +237,7 @@ func (t *Dense) FlatNotMaskedEdges() (int, int) {
 // Returns: A pair of ints. -1 if all values are unmasked.
 func (t *Dense) FlatMaskedEdges() (int, int) {
 	if !t.IsMasked() {
-		return 0, t.Size() - 1
+		return -1, -1
 	}
 	var start, end int
 	it := IteratorFromDense(t)
